@@ -113,7 +113,7 @@ class Indentizer:
     def to_str(self, contents: Any) -> str:
         """Process the specified contents with indentation per dataclass configuration and
         return the result as an end-of-line delimited string."""
-        return EOL.join(self.to_str(contents)) + EOL
+        return EOL.join(self.to_list(contents)) + EOL
 
 
 class TextBlock:
